@@ -124,6 +124,29 @@ impl Tokenizer {
             tokens.push(token);
         }
 
-        tokens
+        Self::join_signed_numbers(tokens)
+    }
+
+    /// ITU-T X.680 | ISO/IEC 8824-1, 19.1: SignedNumber ::= number | "-" number
+    /// The sign and the number are two lexical items, so white-space and comments may separate
+    /// them. The parsers expect a signed number in one token, which is located at its sign.
+    fn join_signed_numbers(tokens: Vec<Token>) -> Vec<Token> {
+        let mut joined: Vec<Token> = Vec::with_capacity(tokens.len());
+        let mut in_string = false;
+        for token in tokens {
+            if token.eq_separator('"') {
+                in_string = !in_string;
+            }
+            if let (false, Some(Token::Text(_, sign)), Token::Text(_, number)) =
+                (in_string, joined.last_mut(), &token)
+            {
+                if sign == "-" && number.chars().all(|c| c.is_ascii_digit()) {
+                    sign.push_str(number);
+                    continue;
+                }
+            }
+            joined.push(token);
+        }
+        joined
     }
 }
